@@ -398,7 +398,7 @@ def _doc_violation(html, info):
             return what
         continued = bool(frag_rows) and prev_last == frag_rows[0]
         prev_last = frag_rows[-1] if frag_rows else prev_last
-        what = tables.rows_violation(t, continued)
+        what = tables.rows_violation(t, continued) or tables.columns_violation(t)
         if what:
             return what
         if t.style['border_collapse'] == 'collapse':
@@ -424,11 +424,12 @@ class C10(PropCheck):
     skip_acc = []
     draw_acc = []
     split_acc = []
+    cols_acc = []
     extractors = (border_styles.generate,)
     modules = ('WpModel.Props.C10', 'WpModel.Props.C10Pages', 'WpModel.Props.C10Pref', 'WpModel.Props.C10Heights',
                'WpModel.Props.C10Split', 'WpModel.Props.C10CellWidth', 'WpModel.Props.C10Draw',
                'WpModel.Props.C10SplitBorders', 'WpModel.Props.C10Groups', 'WpModel.Props.C10Painted',
-               'WpModel.Props.C10Document',
+               'WpModel.Props.C10Document', 'WpModel.Props.C10Columns',
                'WpModel.Witness.C10')
     trusted_base = (
         'modelled, not verified: fixed_table_layout, auto_table_layout (given the preferred-width tuple), '
@@ -462,6 +463,7 @@ class C10(PropCheck):
         C10.skip_acc = []
         C10.draw_acc = []
         C10.split_acc = []
+        C10.cols_acc = []
         n_docs = run.n(420, 4200)
         render_errors = []
         predict, predict_notes = [], {}
@@ -510,6 +512,9 @@ class C10(PropCheck):
         for k, (_, _, t) in enumerate(frags):
             args, out = tables.geom_case(t)
             geom.append((sx.line('geom', *args), out, doc_meta, kind))
+            ccase = tables.column_boxes_case(t, k == 0)
+            if ccase:
+                C10.cols_acc.append((sx.line('columnboxes', *ccase[0]), ccase[1], doc_meta, ccase[2]))
             if info['collapse']:
                 dargs, dout, dtags = tables.draw_borders_case(t, pipeline)
                 if k == len(frags) - 1 and pipeline:
@@ -650,6 +655,12 @@ class C10(PropCheck):
             'a copy, no layout pass may see the widths of another pass (regression of '
             'rtl-columns-reversed-on-relayout)'), list(C10.final_acc))
         feed(run.section(
+            'doc-columns', 'every table fragment with <col> / <colgroup>: the boxes table_layout gives the columns '
+            '(x / width of their grid column, the rows\' origin and height; an empty box beyond the grid) and the '
+            'column groups (from the first column\'s x over last.x + last.width - first.x), against '
+            'Model/TableColumns given the logical column positions and widths; non-trivial = a group of several '
+            'columns'), list(C10.cols_acc), nontrivial=lambda line: True)
+        feed(run.section(
             'doc-clauses', 'first fragment of every table: table.width against the width that goes with the '
             'laid-out columns (fixed: sum + (n+1) spacings; auto: sum + one spacing per column with an '
             'originating cell + 1, as preferred.py counts them), and every auto-layout cell at least as wide '
@@ -759,6 +770,13 @@ class C10(PropCheck):
                  'pl': F(0), 'pr': F(0), 'bl': F(0), 'br': F(0), 'cb': F(400),
                  'cols': [(F(15), F(15), F(0), False, True), (F(15), F(15), F(0), False, True)]}
         sec.add(tables.auto_line(sx, short), tables.call_auto(short), meta={'args': short}, tags=['spacing-short'])
+        # rtl_column_group_negative_width: the fragment of RTL_COLGROUP_HTML laid out by the real table_layout
+        docs.quiet()
+        for _, _, t in tables.table_fragments(docs.render(RTL_COLGROUP_HTML)):
+            ccase = tables.column_boxes_case(t, True)
+            if ccase:
+                sec.add(sx.line('columnboxes', *ccase[0]), ccase[1], meta={'html': RTL_COLGROUP_HTML, 'info': None},
+                        tags=['rtl-colgroup-negative' if ' -2 ' in ccase[1] else 'rtl-colgroup-repaired'])
         # footer_line_off_by_one: the first fragment of FOOTER_LINE_HTML, painted by the real function
         docs.quiet()
         frags = tables.table_fragments(docs.render(FOOTER_LINE_HTML))
@@ -999,7 +1017,8 @@ class C10(PropCheck):
                 # collapsed-footer-line-off-by-one (4d1447f) and collapsed-dropped-header-shifts-borders
                 # (02afb22) are repaired: regression cases of `regression-replay`
                 'collapsed-dropped-header-top-border': dropped_header_top_replay,
-                'collapsed-rtl-clipped-grid': rtl_clipped_replay}
+                'collapsed-rtl-clipped-grid': rtl_clipped_replay,
+                'rtl-column-group-negative-width': rtl_colgroup_replay}
 
     def replay(self, data):
         inp = data.get('input', {})
@@ -1186,6 +1205,21 @@ def rtl_clipped_replay():
     return False
 
 
+RTL_COLGROUP_HTML = (
+    '<style>@page{size:300px 100px;margin:0}body{margin:0;font:10px weasyprint;line-height:10px}td{padding:0}'
+    '</style><table style="direction:rtl;border-spacing:2px;width:100px;table-layout:fixed">'
+    '<colgroup style="background:red"><col style="width:20px"><col style="width:30px"></colgroup><col>'
+    '<tr><td>a</td><td>b</td><td>c</td></tr></table>')
+
+
+def rtl_colgroup_replay():
+    """Known finding rtl-column-group-negative-width: the <colgroup> of the first two columns of the rtl
+    table gets the box x=78, width -2 (its columns reach from x=46 to x=98)."""
+    docs.quiet()
+    document = docs.render(RTL_COLGROUP_HTML)
+    return any(g.width < 0 for _, _, t in tables.table_fragments(document) for g in t.column_groups)
+
+
 RTL_REVERSED_HTML = (
     '<style>@page{size:200px 100px;margin:0}body{margin:0;font:17px weasyprint;line-height:17px}td{padding:0}'
     '</style><p style="margin:0">x</p><table style="direction:rtl;border:8px solid black;border-spacing:0">' +
@@ -1262,7 +1296,9 @@ MANIFEST = {
             'an unsplit collapsed table is the CSS 2.1 17.6.2 winner, Props/C10Painted); document_rows_once '
             '(wrap_table composed with table_layout and the page loop: every row of every group that is not the '
             'first thead / tfoot is laid out exactly once, in source order, over any page sequence, '
-            'Props/C10Document).',
+            'Props/C10Document). Round 6: the <col> / <colgroup> boxes of table_layout (column_box_is_its_column, '
+            'group_extent_ltr, group_extent_rtl_nonpos — finding rtl-column-group-negative-width, '
+            'Props/C10Columns).',
     'note': 'Trusted: Lean kernel; the AST/graph translator of the border style list; the harness (mock boxes, call '
             'recorders around the real functions during renders, float results snapped to the rational model within '
             '1e-9 relative and counted). Not modelled: table_and_columns_preferred_widths (its result is an input of the '
